@@ -456,8 +456,10 @@ func (l *Ledger) applyEvent(idx int, e *Event) {
 	case http2.FrameData:
 		s := l.all[e.StreamID]
 		if s == nil {
-			l.violate("data-unknown-stream", e.StreamID, idx, "DATA on stream %d which was never opened", e.StreamID)
-			s = l.stream(e.StreamID)
+			if e.StreamID > l.lastStream {
+				l.violate("data-unknown-stream", e.StreamID, idx, "DATA on stream %d which was never opened", e.StreamID)
+			}
+			s = l.stream(e.StreamID) // (a stream dropped with Forget starts over with a full window)
 		}
 		n := int64(e.Length)
 		l.stats.DataFrames++
